@@ -6,7 +6,9 @@ Read with `ast` from /repo's working tree (never imported, never executed):
     - `get_constituent_arrays`: the statements in order.  The views must be built by `ranked_memref_to_numpy(field)` over
       `self.get__fields_()` (raw-pointer views: no NumPy base chain to whatever owns the memory) and returned unchanged;
       the keep-alive loop `for arr in arrays: _hold_ref(arr, self)` is READ together with the condition it runs under
-      (`always`, `if owns_memory`, `if not owns_memory`, absent) -> `mlirHoldViews`,
+      (`always`, `if owns_memory`, `if not owns_memory`, absent) -> `mlirHoldViews`, and with whether the base walk
+      `while isinstance(arr.base, np.ndarray): arr = arr.base` stands before the `_hold_ref` call (the keep-alive then goes on
+      the array at the bottom of NumPy's base chain, /repo d206752) -> `mlirHoldOnBaseRoot`,
     - `from_constituent_arrays`: the storage is `cls(*(numpy_to_ranked_memref(arr) for arr in arrs))` (pointers into the
       arrays given, no copy); the loop `for arr in arrs: _hold_ref(storage, arr)` is READ with its condition -> `mlirHoldInputs`,
     - `__del__`: `for field in self.get__fields_(): free_memref(field)`, READ with the condition the method is defined under
@@ -36,7 +38,7 @@ from pathlib import Path
 
 PKG = "sparse/mlir_backend"
 OUT = "MlirHold.lean"
-NAMES = ["mlirHoldViews", "mlirHoldInputs", "mlirFreeFields", "mlirOwnsDefault", "mlirFromArraysOwns", "mlirOpOwns"]
+NAMES = ["mlirHoldViews", "mlirHoldInputs", "mlirFreeFields", "mlirOwnsDefault", "mlirFromArraysOwns", "mlirOpOwns", "mlirHoldOnBaseRoot"]
 
 
 class Refuse(Exception):
@@ -70,25 +72,41 @@ def cond_of(test):
     raise Refuse(f"condition `{t}` is not a test of `owns_memory`")
 
 
-def read_loop(stmts, loop_text, what):
+BASE_WALK = "while isinstance(arr.base, np.ndarray):\n    arr = arr.base"
+
+
+def read_for(s, head, hold, what, walk_allowed):
+    """the keep-alive loop `for arr in <seq>: [base walk] _hold_ref(...)`: returns whether the base walk
+    (`while isinstance(arr.base, np.ndarray): arr = arr.base`, the keep-alive goes on the array at the bottom of NumPy's base
+    chain) stands before the `_hold_ref` call"""
+    if not isinstance(s, ast.For) or s.orelse or f"for {norm(s.target)} in {norm(s.iter)}:" != head:
+        raise Refuse(f"{what}: `{norm(s)[:120]}` is not the loop `{head}`")
+    body = [norm(b) for b in s.body]
+    if body == [hold]:
+        return False
+    if walk_allowed and body == [BASE_WALK, hold]:
+        return True
+    raise Refuse(f"{what}: body of `{head}` is {body!r:.200}, not [`{hold}`] or [base walk, `{hold}`]")
+
+
+def read_loop(stmts, head, hold, what, walk_allowed=False):
     """`stmts`: the statements between the pinned first statement and the pinned `return`.  Understood: nothing (the edge is
-    never made), the loop itself, or the loop as the only statement of `if owns_memory:` / `if not owns_memory:` (no else)."""
+    never made), the loop itself, or the loop as the only statement of `if owns_memory:` / `if not owns_memory:` (no else).
+    Returns (condition, base walk present)."""
     if not stmts:
-        return "never"
+        return "never", False
     if len(stmts) != 1:
         raise Refuse(f"{what}: {len(stmts)} statements where the keep-alive loop is expected: {[norm(s)[:60] for s in stmts]}")
     s = stmts[0]
     if isinstance(s, ast.For):
-        if norm(s) != loop_text:
-            raise Refuse(f"{what}: loop `{norm(s)[:120]}` is not `{loop_text}`")
-        return "always"
+        return "always", read_for(s, head, hold, what, walk_allowed)
     if isinstance(s, ast.If):
         c = cond_of(s.test)
         if s.orelse:
             raise Refuse(f"{what}: `if {norm(s.test)}` has an else branch")
-        if len(s.body) != 1 or norm(s.body[0]) != loop_text:
-            raise Refuse(f"{what}: body of `if {norm(s.test)}` is not the keep-alive loop `{loop_text}`")
-        return c
+        if len(s.body) != 1:
+            raise Refuse(f"{what}: body of `if {norm(s.test)}` is not the keep-alive loop alone")
+        return c, read_for(s.body[0], head, hold, what, walk_allowed)
     raise Refuse(f"{what}: statement `{norm(s)[:100]}` not understood")
 
 
@@ -111,7 +129,8 @@ def read_storage(tree):
         raise Refuse("Storage.get_constituent_arrays: too short")
     expect(g[0], "arrays = tuple((ranked_memref_to_numpy(field) for field in self.get__fields_()))", "Storage.get_constituent_arrays")
     expect(g[-1], "return arrays", "Storage.get_constituent_arrays")
-    hold_views = read_loop(g[1:-1], "for arr in arrays:\n    _hold_ref(arr, self)", "Storage.get_constituent_arrays")
+    hold_views, base_walk = read_loop(g[1:-1], "for arr in arrays:", "_hold_ref(arr, self)", "Storage.get_constituent_arrays",
+                                      walk_allowed=True)
     # --- from_constituent_arrays
     fdef = find(st.body, ast.FunctionDef, "from_constituent_arrays")
     if [norm(d) for d in fdef.decorator_list] != ["classmethod"]:
@@ -121,7 +140,7 @@ def read_storage(tree):
         raise Refuse("Storage.from_constituent_arrays: too short")
     expect(f[0], "storage = cls(*(numpy_to_ranked_memref(arr) for arr in arrs))", "Storage.from_constituent_arrays")
     expect(f[-1], "return storage", "Storage.from_constituent_arrays")
-    hold_inputs = read_loop(f[1:-1], "for arr in arrs:\n    _hold_ref(storage, arr)", "Storage.from_constituent_arrays")
+    hold_inputs, _ = read_loop(f[1:-1], "for arr in arrs:", "_hold_ref(storage, arr)", "Storage.from_constituent_arrays")
     # --- __del__ (directly in the class body, or under `if owns_memory:`)
     free_loop = "for field in self.get__fields_():\n    free_memref(field)"
     free = "never"
@@ -148,7 +167,7 @@ def read_storage(tree):
             "free_memref(field)": free != "never"}
     if sorted(holds) != sorted(k for k, v in want.items() if v):
         raise Refuse(f"formats.py: `_hold_ref` / `free_memref` calls {sorted(holds)} (expected only those of the Storage class)")
-    return hold_views, hold_inputs, free, owns_default
+    return hold_views, hold_inputs, free, owns_default, base_walk
 
 
 COMMON_TEXTS = {
@@ -314,7 +333,7 @@ def generate(repo: Path):
     src = f"{PKG}/formats.py, _common.py, _conversions.py, _array.py, _ops.py"
     try:
         p = repo / PKG
-        hold_views, hold_inputs, free, owns_default = read_storage(ast.parse((p / "formats.py").read_text()))
+        hold_views, hold_inputs, free, owns_default, base_walk = read_storage(ast.parse((p / "formats.py").read_text()))
         read_common(ast.parse((p / "_common.py").read_text()))
         from_arrays_owns = read_conversions(ast.parse((p / "_conversions.py").read_text()), owns_default)
         read_array(ast.parse((p / "_array.py").read_text()))
@@ -344,6 +363,11 @@ def OwnsCond.eval : OwnsCond → Bool → Bool
 /-- `Storage.get_constituent_arrays`: `for arr in arrays: _hold_ref(arr, self)` — every returned NumPy view (a raw-pointer
 view made by `ranked_memref_to_numpy`) keeps the storage alive -/
 def mlirHoldViews : OwnsCond := .{hold_views}
+
+/-- `Storage.get_constituent_arrays`: inside that loop, before the `_hold_ref` call, `while isinstance(arr.base, np.ndarray):
+arr = arr.base` — the keep-alive goes on the array at the BOTTOM of NumPy's base chain.  (For complex64 / complex128 / float16
+`ranked_memref_to_numpy` returns `raw.view(dtype)`, and NumPy bases every further view on `raw`.) -/
+def mlirHoldOnBaseRoot : Bool := {b(base_walk)}
 
 /-- `Storage.from_constituent_arrays`: `for arr in arrs: _hold_ref(storage, arr)` — the storage (which points into the
 arrays given, no copy) keeps them alive -/
